@@ -110,6 +110,9 @@ def modules():
         one(QLike(5, "m")), one([QLike(1, "m"), QLike(2, "m")]),
         lambda: P([("o", O([("x", 1)])), ("g", G([("^TABLE", QLike(5, "BYTES"))]))]),
         lambda: P([("n", QLike("abc", "m"))]),
+        # the other family of container classes (pvl.new), groups only / groups and an object
+        lambda: __import__("pvl.new").new.loads("GROUP = g\n a = 1\nEND_GROUP\nGROUP = h\n b = 2\nEND_GROUP\nEND\n"),
+        lambda: __import__("pvl.new").new.loads("OBJECT = o\n GROUP = g\n  a = 1\n END_GROUP\nEND_OBJECT\nk = 1\nEND\n"),
     ]
 
 
